@@ -195,6 +195,9 @@ class Interp:
         self._fields_cache = {}
         self.warnings = []
         self.loops = {}     # loop id -> summary of a loop that was not unrolled
+        # False: a module-level mutable container keeps its identity (a
+        # ('global', name) symbol) instead of being folded to its initial value
+        self.module_values = module_values
 
     # ------------------------------------------------------------------
     def fresh(self):
@@ -1025,6 +1028,10 @@ class Interp:
             if r[2] in m.multi:
                 return ('global', r[1] + '.' + r[2])
             if _depth > 4:
+                return ('global', r[1] + '.' + r[2])
+            if not self.module_values and isinstance(node, (
+                    ast.Dict, ast.List, ast.Set, ast.ListComp, ast.DictComp,
+                    ast.SetComp, ast.Call)):
                 return ('global', r[1] + '.' + r[2])
             f = Frame(m, None, None, None, 50, '<module %s>' % r[1])
             v = self.eval(node, {}, f, ())
